@@ -112,17 +112,7 @@ def run(ctx):
         s = ev.sites.get(b)
         return s is not None and s.callee[0] == "Vec::<T, A>::push" and any(x.op == "call" and B.cname(x) == "HashToPoint::hash_to_point" for x in subterms(s.args[1]))
 
-    fagg = ctx.need_fn("E4.loop", "BlsSignatureCore::core_aggregate_verify")
-    if fagg is not None:
-        ents = F.entry_builders(P, fagg)
-        if not ents:
-            ctx.ob("E4.loop.anchor", "BlsSignatureCore::core_aggregate_verify/per-entry pair", False, "per-entry construction of (hash, pk) not found in core_aggregate_verify (missing anchor)", where=where(fagg))
-        for e in ents:
-            # the key that is paired is the key that was tested: !is_identity(pk) holds where the pair is built
-            comps = e["value"].a[1] if e["value"].op == "agg" else ()
-            pkc = [B.peel(c) for c in comps if not F._has_h2p(c)]
-            ok = bool(pkc) and any(not pol and a[0] == "atom" and a[1] == "is_identity" and B.peel(a[2]) == pkc[0] for a, pol in e["lits"])
-            ctx.ob("E4.loop", "BlsSignatureCore::core_aggregate_verify/pairs.push((hash, pk)) per entry", ok, "the per-entry pair (%s) is built only after !is_identity of the very key it contains" % e["mode"], where=where(e["fn"], e["bb"]))
+    F.check_aggregate_key_guard(ctx, "E4.loop", P)
     # scalar import: zero => none
     R.check_scalar_zero_guard(ctx, "E4.zero", P)
     # partial signing: the share's scalar goes through the zero-refusing core_sign, or is itself tested for zero
